@@ -297,7 +297,7 @@ class ContentType(numba.types.Type):
     def form_fill_identities(self, pos, layout, lookup):
         identities = layout.identities
         if identities is not None:
-            lookup.arrayptr[pos + self.IDENTITIES] = (
+            lookup.arrayptrs[pos + self.IDENTITIES] = (
                 ak.nplike.of(identities).asarray(identities).ctypes.data
             )
 
